@@ -6,6 +6,7 @@ require (
 	github.com/fatedier/frp v0.0.0
 	github.com/fatedier/golib v0.5.1
 	github.com/pelletier/go-toml/v2 v2.2.0
+	github.com/pires/go-proxyproto v0.7.0
 	github.com/samber/lo v1.47.0
 	github.com/spf13/cobra v1.8.0
 	golang.org/x/net v0.39.0
@@ -30,7 +31,6 @@ require (
 	github.com/pion/stun/v2 v2.0.0 // indirect
 	github.com/pion/transport/v2 v2.2.1 // indirect
 	github.com/pion/transport/v3 v3.0.1 // indirect
-	github.com/pires/go-proxyproto v0.7.0 // indirect
 	github.com/pkg/errors v0.9.1 // indirect
 	github.com/prometheus/client_golang v1.19.1 // indirect
 	github.com/prometheus/client_model v0.5.0 // indirect
